@@ -478,9 +478,13 @@ def chain_case(rng, depth, k, profiles=None):
         r = w.relation(a * b, 1)
         ops.append((r, (a, b) if rng.random() < 0.5 else (b, a)))
     ops.append((w.relation(ps[0] if rng.random() < 0.7 else ps[-1], 1), None))
+    if k == "stats":
+        # counters only, compared with the explicit-stack model (the recursive one agrees but is not run here)
+        return Case(f"rs_history_stats {w.n} {len(w.fb)} {w.maxlarge} " + ";".join(item(r, pq) for r, pq in ops),
+                    tag=f"hist/chain-stack/{depth}", timeout=900.0)
     if k:
-        return Case(f"rs_history {w.n} {len(w.fb)} {w.maxlarge} " + ";".join(item(r, pq) for r, pq in ops),
-                    tag="hist/chain", timeout=600.0)
+        return Case(f"rs_history_stack {w.n} {len(w.fb)} {w.maxlarge} " + ";".join(item(r, pq) for r, pq in ops),
+                    tag="hist/chain/stack", timeout=600.0)
     # deep chains: counters only (the store dump is quadratic in the chain length), no model run
     return Case(f"rs_history_stats {w.n} {len(w.fb)} {w.maxlarge} " + ";".join(item(r, pq) for r, pq in ops),
                 k=False, tag=f"hist/chain-deep/{depth}", timeout=900.0, profiles=profiles)
@@ -700,7 +704,11 @@ def cases(tier, rng, extended=False):
             size = rng.randint(10, 40)
         else:
             size = rng.randint(40, 160)
-        yield history_case(rng, size, style)
+        hc = history_case(rng, size, style)
+        yield hc
+        if i % 2 == 0:
+            # same history answered by the explicit-stack model of walk_doubles (Model/RelationsWalk.lean)
+            yield Case(hc.line.replace("rs_history ", "rs_history_stack ", 1), tag=hc.tag + "/stack")
     yield from single_op_cases(rng, nops)
     # real sieve runs: every relation handed to RelationSet::add is recorded under the write lock (hook),
     # the model replays the recorded history (followup); the oracle checks the callers' contract on it
@@ -730,6 +738,8 @@ def cases(tier, rng, extended=False):
     # walk_doubles since fix e402536; before it 8000 links overflowed the 8 MiB main-thread stack)
     for depth in ([120, 300] if quick else [50, 120, 300, 300, 500]):
         yield chain_case(rng, depth, True)
+    for depth in ([1000] if quick else [1000, 2000]):
+        yield chain_case(rng, depth, "stats")
     if quick:
         yield chain_case(rng, 8000, False, profiles=["release"])
     else:
@@ -874,7 +884,7 @@ def oracle(case, ans):
             if msg:
                 return f"caller hands add a relation outside the stated contract: {msg}: {it[:200]}"
         return oracle(Case("rs_history " + parts[1]), parts[2])
-    if op == "rs_history":
+    if op in ("rs_history", "rs_history_stack"):
         n = int(a[0])
         parsed = parse_history_answer(ans)
         if parsed is None:
@@ -989,7 +999,7 @@ def klass(case, ans):
             inner = klass(Case("rs_history " + parts[1], tag=case.tag), parts[2])
             return "sieve_history/" + inner.split("/", 1)[1]
         return f"sieve_history/{case.tag}/{parts[0].split(' ')[0]}"
-    if case.op == "rs_history":
+    if case.op in ("rs_history", "rs_history_stack"):
         parsed = parse_history_answer(ans)
         if parsed is None:
             return f"rs_history/{case.tag}/{ans.split('@')[0]}"
@@ -1008,7 +1018,7 @@ def nontrivial(case, ans):
         return case.args[2] != "-"
     if case.op in ("sieve_history", "sieve_final"):
         return " || " in ans and ans.split(" || ")[1] != "-"
-    if case.op == "rs_history":
+    if case.op in ("rs_history", "rs_history_stack"):
         parsed = parse_history_answer(ans)
         return bool(parsed) and any(news and tag[0] != "c" for tag, news in parsed[0])
     return True
